@@ -2661,12 +2661,15 @@ class RedunBackendDb(RedunBackend):
         """
         assert self.session
 
-        # Gather all valid handles of the same name and their children ids
+        # Gather all handles of the same name and their children ids
         # in order or perform the recursive search more efficiently in python.
+        # Note: edges of already invalid handles are followed too. A handle that was
+        # re-derived (revalidated) can sit behind a still invalid ancestor, and it
+        # must be rolled back with that ancestor's lineage.
         handles_same_name = (
             self.session.query(Handle.hash, HandleEdge.child_id)
             .join(HandleEdge, HandleEdge.parent_id == Handle.hash)
-            .filter(Handle.fullname == handle.__handle__.fullname, Handle.is_valid.is_(True))
+            .filter(Handle.fullname == handle.__handle__.fullname)
             .all()
         )
 
